@@ -52,18 +52,20 @@ class CB:
         self.fn = fn
         self.count = 0
         self.fault_at = None
+        self.fault_type = InjectedFault
         self.fired = False
 
-    def reset(self, fault_at=None):
+    def reset(self, fault_at=None, fault_type=InjectedFault):
         self.count = 0
         self.fault_at = fault_at
+        self.fault_type = fault_type
         self.fired = False
 
     def __call__(self, *args):
         self.count += 1
         if self.fault_at is not None and self.count == self.fault_at:
             self.fired = True
-            raise InjectedFault(f"{self.name}#{self.count}")
+            raise self.fault_type(f"{self.name}#{self.count}")
         return self.fn(*args)
 
 
@@ -517,9 +519,19 @@ class C13(engine.Property):
             total = 0
             op_key = engine.h64(engine.jdump(op))
             for name in sorted(counts):
-                for k in positions(counts[name], op_key):
+                pos = positions(counts[name], op_key)
+                # every position with an ordinary exception; the first and last
+                # few also with StopIteration, the one exception type that
+                # iterator machinery (filter, map, next, generators) treats
+                # as "finished" instead of as an error
+                plan = [(k, InjectedFault) for k in pos] + [
+                    (k, StopIteration) for k in sorted(set(pos[:3] + pos[-2:]))
+                ]
+                for k, ftype in plan:
                     cbs_k = h.make_callbacks()
-                    cbs_k[name].reset(fault_at=k)
+                    cbs_k[name].reset(fault_at=k, fault_type=ftype)
+                    if ftype is StopIteration:
+                        s["fault:callback-raised-StopIteration"] += 1
                     seams.set_flag(flag)
                     out_k = h.call(cbs_k)
                     seams.set_flag(False)
